@@ -14,7 +14,7 @@ from ._wcommon import (ASSUMPTIONS, COMPONENTS_REAL, COMPONENTS_STUB, Hist, Viol
 from ._wcommon import abstract_states  # noqa: F401,E402
 
 ID = "C09"
-RUNS = {"quick": 8000, "thorough": 250000}
+RUNS = {"quick": 10000, "thorough": 250000}
 BUDGET_S = {"quick": 60, "thorough": 900}
 LIST_KEYS = ("messages", "ops", "client_ops")
 RULE = ("seeded label dictionaries over int (incl. +-2^63, 10^30), float (incl. +-inf, nan, -0.0), bool, str (unicode, empty) and bytes "
